@@ -8,7 +8,29 @@ def hist(profile, cases, tier="quick", extra=None, timeout=1500):
             "timeout": timeout}
 
 
+T1 = ["--threads", "1"]
+
 SCENARIOS = {
+    "C05": {
+        "theorems": ["C05_add", "C05_append", "C05_del", "C05_clear", "C05_contains", "C05_vector", "C05_readback_f32",
+                     "C05_iter", "C05_isEmpty", "C05_refines", "C05_bq_readback_given_roundtrip"],
+        "quick": [hist("c05", 60, extra=T1)],
+        "thorough": [hist("c05", 1500, "thorough", extra=T1), hist("c05", 200, "thorough")],
+        "counts": ["C05"],
+    },
+    "C06": {
+        "theorems": ["C06_open_char", "C06_needBuild_char", "C06_marks", "C06_noop", "C06_clear", "C06_frame",
+                     "C06_names_distinct", "C06_wrong_metric"],
+        "quick": [hist("c06", 60, extra=T1)],
+        "thorough": [hist("c06", 1500, "thorough", extra=T1), hist("c06", 200, "thorough")],
+        "counts": ["C06"],
+    },
+    "C19": {
+        "theorems": ["C19_dim_add", "C19_dim_append", "C19_dim_query", "C19_append", "C19_del_absent", "C19_needBuild_unchanged"],
+        "quick": [hist("c19", 60, extra=T1)],
+        "thorough": [hist("c19", 1000, "thorough", extra=T1)],
+        "counts": ["C19"],
+    },
     "C16": {
         "theorems": ["C16_layout", "C16_key_len", "C16_key_order", "C16_key_roundtrip", "C16_key_inj",
                      "C16_nodeid_roundtrip", "C16_version_roundtrip"],
